@@ -128,7 +128,17 @@ def reset_twin(pid, out, tier, seed, arkh, tmp, mode="reset"):
                 logs = []
                 for l in st["log"]:
                     if l and l[0] == 100 and len(l) >= 7:
-                        logs.append(str((100, l[1], ent(idx, l[2], l[3]), l[4], l[5], l[6], snap(idx, l[8:]) if len(l) > 8 else ())))
+                        # reported entity: own snapshot; then the whole world as the callback sees it (entity, n, 4n
+                        # numbers per listed row) - compared as a multiset: iteration order may differ between twins
+                        q, own = 7, ()
+                        if l[5] == 1 and len(l) > 7:
+                            own = snap(idx, l[8:8 + 4 * l[7]]); q = 8 + 4 * l[7]
+                        rows = []
+                        while q + 3 <= len(l):
+                            n = l[q + 2]
+                            rows.append((str(ent(idx, l[q], l[q + 1])), snap(idx, l[q + 3:q + 3 + 4 * n])))
+                            q += 3 + 4 * n
+                        logs.append(str((100, l[1], ent(idx, l[2], l[3]), l[4], l[5], l[6], own, tuple(sorted(rows)))))
                     elif l and l[0] == 101:
                         logs.append(str((101, ent(idx, l[1], l[2]))))
                     else:
@@ -264,6 +274,10 @@ def determinism(pid, cfg, tier, seed, arkh, tmp):
                     out["violations"].append((p, "")); return out
             compared += n
     out["coverage"]["determinism_runs"] = dict(processes=reps, scripts_per_process=n, scripts_compared=compared)
+    # "... whether they live in the same process or in different processes": worlds living in ONE process
+    # (several worlds loaded from one dump, the source world evolving afterwards) must not influence each other
+    g = gotests(pid, "codec", tier, seed)
+    out["coverage"].update(g["coverage"]); out["violations"] += g["violations"]
     # Source side: every construct through which package ecs could observe something else than the
     # operation history must be covered by a theorem (bin/srcscan_allow.json). The twin-process runs
     # above are the search for a failing input; an uncovered construct that they do not expose is
